@@ -31,7 +31,7 @@ from hippolyzer.lib.proxy.caps import SerializedCapData
 from hippolyzer.lib.proxy.http_event_manager import MITMProxyEventManager
 from hippolyzer.lib.proxy.sessions import SessionManager
 from hippolyzer.lib.proxy.settings import ProxySettings
-from mitmproxy.http import HTTPFlow, Response
+from mitmproxy.http import Request, Response
 from mitmproxy.test import tflow, tutils
 
 from .core import HarnessError
@@ -132,6 +132,7 @@ class Universe:
                 sess.register_region(("127.0.0.1", 13000 + 10 * s + r), seed_url=seed_url(s, r), handle=(s << 32) | (r + 1))
             if len(sess.regions) != N_REGIONS:
                 raise HarnessError(f"universe construction produced {len(sess.regions)} regions")
+            sess.main_region = sess.regions[0]
             self.sessions.append(sess)
             self.regions.extend(sess.regions)
         self.em = MITMProxyEventManager(self.sm, self.sm.flow_context)
@@ -192,30 +193,32 @@ class Universe:
         self.sm.flow_context.from_proxy_queue.put(("request", f.get_state()), True)
         self._pump()
         state = self._take_callback()
-        back = HTTPFlow.from_state(copy.deepcopy(state))    # from_state consumes the dict it is given
+        # read the serialised flow directly (what mitmproxy would rebuild and forward)
+        back_req = Request.from_state(copy.deepcopy(state["request"]))
         try:
-            upstream = llsd.parse_xml(back.request.content)
+            upstream = llsd.parse_xml(back_req.content)
         except Exception as e:  # pragma: no cover
             upstream = repr(e)
-        ser = back.metadata.get("cap_data_ser")
-        return {"state": state, "upstream": upstream, "upstream_url": back.request.url,
+        meta = state.get("metadata") or {}
+        ser = meta.get("cap_data_ser")
+        return {"state": state, "upstream": upstream, "upstream_url": back_req.url,
                 "cap": tuple(ser) if ser is not None else None,
-                "short_circuited": back.response is not None,
-                "needed": list(back.metadata.get("needed_proxy_caps") or [])}
+                "short_circuited": state.get("response") is not None,
+                "needed": list(meta.get("needed_proxy_caps") or [])}
 
     def seed_response(self, request_state: Dict, grant: Dict[str, str]) -> Dict[str, Any]:
         """Simulator answers 200 with ``grant``. Returns the body the viewer would receive."""
-        f = HTTPFlow.from_state(copy.deepcopy(request_state))
-        f.response = Response.make(200, llsd.format_xml(dict(grant)), {"Content-Type": "application/llsd+xml"})
-        self.sm.flow_context.from_proxy_queue.put(("response", f.get_state()), True)
+        st = copy.deepcopy(request_state)
+        st["response"] = Response.make(200, llsd.format_xml(dict(grant)), {"Content-Type": "application/llsd+xml"}).get_state()
+        self.sm.flow_context.from_proxy_queue.put(("response", st), True)
         self._pump()
         state = self._take_callback()
-        back = HTTPFlow.from_state(state)
+        resp = Response.from_state(state["response"])
         try:
-            body = llsd.parse_xml(back.response.content)
+            body = llsd.parse_xml(resp.content)
         except Exception as e:  # pragma: no cover
             body = repr(e)
-        return {"body": body, "status": back.response.status_code}
+        return {"body": body, "status": resp.status_code}
 
 
 def caps_snapshot(region) -> Tuple:
